@@ -20,7 +20,9 @@ TRUSTED = ["the reference predicates ref_domain / conv_ok of harness/props/c01.p
            "Py.Val (validated by C03's kinds p, q)"]
 ASSUMPTIONS = ["default values are not judged (C10): only assigned attributes are compared and checked",
                "no trait-change handlers are attached (C02); post_setattr is modelled for Map / PrefixMap only",
-               "special methods do not raise TraitError themselves"]
+               "special methods do not raise TraitError themselves",
+               "a compound (Either / TraitCompound) with a Map member or an Instance(adapt='default') member is outside "
+               "the model (findings F46, F49); Map / PrefixMap / TraitMap and adapt='default' are covered stand-alone"]
 EXHAUSTIVE = {"quick": True, "thorough": True}
 DISTINCT_BY_OUTPUT = False
 
